@@ -354,7 +354,7 @@ func (p *Pool) Put(x any) {
 		p.real.Put(x)
 		return
 	}
-	if bp, ok := x.(*[]byte); ok && bp != nil {
+	if bp, ok := x.(*[]byte); ok && bp != nil && !s.poolKeepStale {
 		b := (*bp)[:cap(*bp)]
 		for i := range b {
 			b[i] = 0xA5
@@ -365,6 +365,12 @@ func (p *Pool) Put(x any) {
 	p.items = append(p.items, it)
 	syncPoint(s, -1)
 }
+
+// SetPoolStale leaves recycled buffers as they are (the previous datagram's bytes stay in them) instead of
+// poisoning them: code that reads beyond the received length then sees plausible stale data.
+//
+//go:norace
+func (s *Sim) SetPoolStale(keep bool) { s.poolKeepStale = keep }
 
 // SetPoolReuse selects buffer recycling: 0 never reuse, 1 tape-chosen, 2 always the most recently returned.
 //
